@@ -592,6 +592,9 @@ def run_content(case, agg):
         agg.ok(key, f"ok:slots={case['n']}", sample=case if (case["s1"] == "ends-ff" and eb == 8 and res == "r0" and case["n"] == 1) else None)
 
 
+RULE += ". Further stages: " + 'payload-content - 8 byte styles per payload (all 0xFF, all zero, 0xFF at the ends, break-like, cache look-alike, empty-key look-alike) x residue of the last slot x eb, written, read back, merged, read back'
+
+
 def plan(tier):
     depth = 4 if tier == "quick" else 6
     return [
